@@ -368,6 +368,10 @@ func (r *Runner) Do(op Op) {
 						r.bad("C05", "failed-persistence-frees", "alloc-error-but-still-held", "Alloc(%s) returned an error (store write failed) but the subscriber still holds %v", op.Sub, lv)
 						r.model.set(op.Sub, lv)
 					case had && !lfound:
+						// nothing released the holder and its lease has not lapsed: a failed (re-)persist that
+						// makes the implementation forget the assignment hands the address to the next asker
+						// while the subscriber is still using it
+						r.bad("C01", "idempotent-reask", "holder-dropped-on-failed-store-write", "Alloc(%s) by the holder of %v failed on a store write and the implementation no longer knows the assignment", op.Sub, prev)
 						r.model.drop(op.Sub)
 					}
 				}
